@@ -11,7 +11,7 @@ V = os.path.dirname(os.path.dirname(os.path.abspath(__file__)))
 
 def main():
     out = os.path.join(V, "lean", "Cpl", "Gen")
-    for tool in ("translate.py", "py2lean.py", "py2lean_typed.py", "py2lean_frag.py"):
+    for tool in ("translate.py", "py2lean.py", "py2lean_typed.py", "py2lean_frag.py", "py2lean_comp.py"):
         subprocess.run([sys.executable, os.path.join(V, "tools", tool), "--repo", "/repo", "--out", out],
                        stdout=subprocess.DEVNULL, stderr=subprocess.DEVNULL)
 
